@@ -183,6 +183,8 @@ def error_statuses(W, body, eterm, val):
     """Statuses of the error that is propagated with `?` (term under from_residual): either the error value itself
     (desugared combinators) or the `err(..)` payload of a Result-valued term."""
     t = eterm
+    while t[0] == "call" and t[1] == S.FROM_RESIDUAL and t[3]:
+        t = t[3][0]          # a residual built by `?` in a spliced helper and propagated again by the caller's `?`
     if t[0] != "err":
         return value_statuses(W, body, t, val)
     x = t[1]
@@ -387,6 +389,26 @@ def _passes(g, bb, exit_bb, val):
     return "never"
 
 
+def term_error_variants(W, body, t, depth=0):
+    """ServerError variants the error `t` (written err(X)) can be, where X is a call in `body`, possibly behind layers of
+    `?` (from_residual(err(..))) spliced in from helpers returning ServerError: an anyhow error converted by `?` is always
+    Other (#[from]); a workspace function's own set is read off its exits.  None = unknown."""
+    if depth > 6 or t[0] != "err":
+        return None
+    x = P.strip_branch(t[1])
+    if x[0] != "call":
+        return None
+    if x[1] == S.FROM_RESIDUAL and x[3]:
+        return term_error_variants(W, body, x[3][0], depth + 1)
+    if isinstance(x[2], int) and 0 <= x[2] < len(body.blocks) and body.blocks[x[2]]["term"].get("k") == "call":
+        dty = body.blocks[x[2]]["term"]["dest"]["ty"]
+        if "anyhow::Error" in dty and "ServerError" not in dty:
+            return {"Other"}
+    if x[1] in W.prog.bodies:
+        return server_error_variants(W, x[1])
+    return None
+
+
 def _feasible_error_variants(W, val, g=None):
     """A valuation that fixes the ServerError variant of a workspace call to one the callee cannot produce (all of the
     callee's error exits are inspected) describes no execution: e.g. the NoSuchClient arm of an inlined error mapping
@@ -395,7 +417,7 @@ def _feasible_error_variants(W, val, g=None):
         if a[0] != "VARIANT":
             continue
         t = a[1]
-        if g is not None and t[0] != "err" and P.phi_locals(t):
+        if g is not None and P.phi_locals(t):
             # the error travelled inside a private error type built on another path (`NewClientError::Server(e)` made by a
             # spliced `From` impl, matched again at the boundary): read it under the definitions this valuation selects
             t = g.resolve_phis(t, val)
@@ -404,6 +426,10 @@ def _feasible_error_variants(W, val, g=None):
         x = P.strip_branch(t[1])
         if x[0] == "call" and x[1] in W.prog.bodies:
             can = server_error_variants(W, x[1])
+            if can is not None and not (set(vs) & can):
+                return False
+        elif x[0] == "call" and x[1] == S.FROM_RESIDUAL and g is not None:
+            can = term_error_variants(W, g.body, t)
             if can is not None and not (set(vs) & can):
                 return False
     return True
@@ -489,6 +515,58 @@ def routes(W):
             else:
                 r["extra"].append(d)
         out.append(r)
+    # routes registered from a table: `web::resource(path).guard(guard::Method(M) | guard::Get()..).to(handler)` written out
+    # where the scope is built (what the route macros expand to, minus the unit-struct factory)
+    have = set(r["factory"] for r in out)
+    for b in W.prog.bodies.values():
+        if not b.unit.endswith("-lib") or not b.unit.startswith(WD.SERVER):
+            continue
+        pv = None
+        for bb, t in b.calls():
+            if t["callee"].get("def", "") != "actix_web::resource::Resource::<T>::to":
+                continue
+            pv = pv or W.prov(b)
+            args = pv.arg_terms(bb)
+            if len(args) < 2 or args[1][0] != "fn":
+                continue
+            hfn = args[1][1]
+            fac = hfn[1:].split(" as ")[0] if hfn.startswith("<") and " as " in hfn else hfn
+            if fac in have:
+                continue
+            r = {"factory": fac, "path": None, "method": None, "handler": hfn, "body": b, "extra": [], "table": True}
+            cur = args[0]
+            while cur[0] == "mut":
+                cur = cur[3]
+            steps = 0
+            while cur[0] == "call" and steps < 8:
+                steps += 1
+                d = cur[1]
+                if d in ("actix_web::web::resource", "actix_web::resource::Resource::new"):
+                    from tcss import sqlmodel as _SM
+                    strs = _SM.resolve_strs(W, b, cur[3][0]) if cur[3] else None
+                    if strs is None and cur[3] and cur[3][0][0] == "call" and cur[3][0][1] == "alloc::string::ToString::to_string":
+                        strs = _SM.resolve_strs(W, b, cur[3][0][3][0])
+                    r["path"] = strs[0] if strs and len(set(strs)) == 1 else None
+                    break
+                if d == "actix_web::resource::Resource::<T>::guard" and len(cur[3]) == 2:
+                    gd = cur[3][1]
+                    while gd[0] == "mut":
+                        gd = gd[3]
+                    if gd[0] == "call" and gd[1] == "actix_web::guard::Method" and gd[3] and gd[3][0][0] == "const" and isinstance(gd[3][0][1], str):
+                        r["method"] = (r["method"] + "+" if r["method"] else "") + gd[3][0][1].rsplit("::", 1)[-1].upper()
+                    elif gd[0] == "call" and gd[1].startswith("actix_web::guard::"):
+                        r["method"] = (r["method"] + "+" if r["method"] else "") + gd[1].split("::")[-1].upper()
+                    else:
+                        r["extra"].append("guard %s" % P.show(gd)[:60])
+                elif d in ("actix_web::resource::Resource::<T>::name",):
+                    pass
+                else:
+                    r["extra"].append(d)
+                cur = cur[3][0] if cur[3] else ("unknown",)
+                while cur[0] == "mut":
+                    cur = cur[3]
+            out.append(r)
+            have.add(fac)
     return out
 
 
@@ -535,6 +613,13 @@ def scope_chain(W, body):
 def unit_struct_name(t):
     if t[0] == "agg" and isinstance(t[1], tuple) and t[1][0] == "adt" and not t[2]:
         return t[1][1]
+    # a resource built in place and bound to its handler (`web::resource(..).guard(..).to(api::<m>::service)`): named after
+    # the handler, like the unit-struct factory the route macro would have generated for it
+    while t[0] == "mut":
+        t = t[3]
+    if t[0] == "call" and t[1] == "actix_web::resource::Resource::<T>::to" and len(t[3]) == 2 and t[3][1][0] == "fn":
+        hfn = t[3][1][1]
+        return hfn[1:].split(" as ")[0] if hfn.startswith("<") and " as " in hfn else hfn
     return None
 
 
